@@ -135,9 +135,8 @@ class RenderContext:
         if not isinstance(root, str):
             # `[1]`, or `[a.b]` where a.b is not a string, names no variable.
             if default == UNDEFINED:
-                name = root.__class__.__name__
-                hint = f"a variable name must be a string, found {name}"
-                return self.env.undefined(name, hint=hint, token=token)
+                hint = "a variable name must be a string"
+                return self.env.undefined("[...]", hint=hint, token=token)
             return default
 
         try:
@@ -178,9 +177,8 @@ class RenderContext:
         if not isinstance(root, str):
             # `[1]`, or `[a.b]` where a.b is not a string, names no variable.
             if default == UNDEFINED:
-                name = root.__class__.__name__
-                hint = f"a variable name must be a string, found {name}"
-                return self.env.undefined(name, hint=hint, token=token)
+                hint = "a variable name must be a string"
+                return self.env.undefined("[...]", hint=hint, token=token)
             return default
 
         try:
